@@ -14,6 +14,7 @@ import (
 	"github.com/jsightapi/jsight-schema-core/json"
 	"github.com/jsightapi/jsight-schema-core/notations/jschema"
 	"github.com/jsightapi/jsight-schema-core/notations/regex"
+	"github.com/jsightapi/jsight-schema-core/openapi"
 	"github.com/jsightapi/jsight-schema-core/rules/enum"
 )
 
@@ -53,6 +54,33 @@ func workOwn(kind string, spec []string) string {
 		return digest(fmt.Sprintf("%v %s %v %s", err == nil, s, err2 == nil, t))
 	}
 	return "badkind"
+}
+
+// The six read operations on one shared regex schema object.
+func workSharedRegex(s *regex.RSchema, op int) string {
+	return digest(guard(func() string {
+		switch op % 6 {
+		case 0:
+			return errAtAny(s.Check())
+		case 1:
+			n, err := s.Len()
+			return fmt.Sprint(n, errAtAny(err))
+		case 2:
+			ex, err := s.Example()
+			return fmt.Sprintf("%x %s", ex, errAtAny(err))
+		case 3:
+			a, err := s.GetAST()
+			return fmt.Sprintf("%s %s %s", a.Value, a.SchemaType, errAtAny(err))
+		case 4:
+			u, err := s.UsedUserTypes()
+			return fmt.Sprint(u, errAtAny(err))
+		}
+		if s.Check() != nil {
+			return "notaccepted"
+		}
+		js, err := openapi.NewSchemaObject(s).MarshalJSON()
+		return fmt.Sprintf("%s %s", js, errAtAny(err))
+	}))
 }
 
 // The six read operations on one shared schema object.
@@ -130,8 +158,18 @@ func init() {
 		} else {
 			// shared objects: sequential reference on a separate fresh object
 			objs := make([]*jschema.JSchema, len(units))
+			robjs := make([]*regex.RSchema, len(units))
 			seq := make([][6]string, len(units))
 			for i, u := range units {
+				if u[0] == "R" {
+					b := unhex(u[1])
+					ref := regex.New("r", append([]byte(nil), b...))
+					for op := 0; op < 6; op++ {
+						seq[i][op] = workSharedRegex(ref, op)
+					}
+					robjs[i] = regex.New("r", append([]byte(nil), b...))
+					continue
+				}
 				p, _ := parseProject(u[1:])
 				ref, err := p.build()
 				if err != nil {
@@ -149,10 +187,16 @@ func init() {
 					rng := rand.New(rand.NewSource(int64(seed*1000 + g)))
 					for k := 0; k < iters; k++ {
 						i := rng.Intn(len(units))
+						op := rng.Intn(6)
+						if robjs[i] != nil {
+							if r := workSharedRegex(robjs[i], op); r != seq[i][op] {
+								note(fmt.Sprintf("regexobj%d.op%d:%s!=%s", i, op, r, seq[i][op]))
+							}
+							continue
+						}
 						if objs[i] == nil {
 							continue
 						}
-						op := rng.Intn(6)
 						if r := workShared(objs[i], op); r != seq[i][op] {
 							note(fmt.Sprintf("obj%d.op%d:%s!=%s", i, op, r, seq[i][op]))
 						}
